@@ -115,28 +115,21 @@ func ParseDenomFromSendPacket(packet transfertypes.FungibleTokenPacketData) stri
 //	        -> Remove Prefix: transfer/channel-Z/ujuno
 //	        -> Hash:          ibc/...
 func ParseDenomFromRecvPacket(packet channeltypes.Packet, packetData transfertypes.FungibleTokenPacketData) string {
-	sourcePort := packet.SourcePort
-	sourceChannel := packet.SourceChannel
+	// Take exactly the decision ICS-20 takes in OnRecvPacket: parse the denomination path and test the
+	// first hop of the parsed trace (a raw string-prefix test disagrees with it whenever the source
+	// channel identifier is not in the format ExtractDenomFromPath recognises).
+	denom := transfertypes.ExtractDenomFromPath(packetData.Denom)
 
-	// To determine the denom, first check whether Stride is acting as source
-	// Build the source prefix and check if the denom starts with it
-	hop := transfertypes.NewHop(sourcePort, sourceChannel)
-	sourcePrefix := hop.String() + "/"
-
-	if strings.HasPrefix(packetData.Denom, sourcePrefix) {
-		// Remove the source prefix (e.g. transfer/channel-X/transfer/channel-Z/ujuno -> transfer/channel-Z/ujuno)
-		unprefixedDenom := packetData.Denom[len(sourcePrefix):]
-
-		// Native assets will have an empty trace path and can be returned as is
-		denom := transfertypes.ExtractDenomFromPath(unprefixedDenom)
+	if denom.HasPrefix(packet.SourcePort, packet.SourceChannel) {
+		// Source: remove the prefix added by the sender chain
+		// (e.g. transfer/channel-X/transfer/channel-Z/ujuno -> transfer/channel-Z/ujuno)
+		denom.Trace = denom.Trace[1:]
 		return denom.IBCDenom()
 	}
-	// Prefix the destination channel - this will contain the trailing slash (e.g. transfer/channel-X/)
-	destinationPrefix := transfertypes.NewHop(packet.GetDestPort(), packet.GetDestChannel())
-	prefixedDenom := destinationPrefix.String() + "/" + packetData.Denom
 
-	// Hash the denom trace
-	denom := transfertypes.ExtractDenomFromPath(prefixedDenom)
+	// Sink: prefix the destination port and channel and hash the denom trace
+	trace := []transfertypes.Hop{transfertypes.NewHop(packet.GetDestPort(), packet.GetDestChannel())}
+	denom.Trace = append(trace, denom.Trace...)
 	return denom.IBCDenom()
 }
 
